@@ -6,6 +6,7 @@ on keep-alive connections of every worker; oracle: a reference mapping written f
 documentation (trusted => documented effect, untrusted => identical to the baseline without the
 proxy-asserting headers)."""
 import itertools
+import os
 import random
 
 from vlib import bench, par, rfc_response
@@ -23,7 +24,9 @@ HEADERS = [("X-Forwarded-Proto", "https"), ("X-Forwarded-Proto", "http"), ("X-Fo
            ("X-Forwarded-Protocol", "ssl"), ("X_Forwarded_Proto", "https"), ("x-forwarded-proto", "https"),
            ("X-My-Scheme", "tls"), ("Script-Name", "/s"), ("SCRIPT_NAME", "/s"), ("Script_Name", "/s"),
            ("script_name", "/s"), ("X-Foo", "1"), ("X_Foo", "2"), ("x_foo", "3"), ("PATH_INFO", "/pi"),
-           ("X-Forwarded-Proto", " https"), ("X-Forwarded-Proto", "HTTPS")]
+           ("X-Forwarded-Proto", " https"), ("X-Forwarded-Proto", "HTTPS"),
+           # other token characters are legal in a field name: they are not '-' and must not fold into the same variable
+           ("X.Foo", "4"), ("X~Foo", "5")]
 
 DEFAULT_SSH = {"X-FORWARDED-PROTOCOL": "ssl", "X-FORWARDED-PROTO": "https", "X-FORWARDED-SSL": "on"}
 DEFAULT_FAI = ["127.0.0.1", "::1"]
@@ -275,6 +278,52 @@ def _pg_task(t):
     return {"evals": 1, "nontriv": 1, "viols": viols, "key": repr(("PG",) + tuple(t))}
 
 
+ENV_VALUES = ["10.9.9.9", "*", "192.0.2.1,2001:db8::9"]
+
+
+def _env_child():
+    """Runs in a fresh interpreter started with FORWARDED_ALLOW_IPS set (setting defaults are bound when gunicorn.config is
+    imported): that variable is the documented default of forwarded_allow_ips - and of nothing else."""
+    import json
+    import os
+    global DEFAULT_FAI
+    DEFAULT_FAI = split_list(os.environ["FORWARDED_ALLOW_IPS"], DEFAULT_FAI)
+    out = []
+    n = 0
+    for peer_k in PEERS:
+        for wi in (0, 2):
+            for line_k in ("tcp4", "none", "tcp6"):
+                r = _proxy_task((wi, peer_k, True, "default", line_k, False))
+                n += r["evals"]
+                out += r["viols"]
+            for hm in HM:
+                r = _gate_task((0 if wi == 0 else 1, peer_k, "default", "default", "default", hm, 1))
+                n += r["evals"]
+                out += r["viols"]
+    print("\n@@RESULT@@" + json.dumps({"evals": n, "viols": out}))
+
+
+def _env_task(t):
+    import json
+    import subprocess
+    import sys
+    (val,) = t
+    env = dict(os.environ, FORWARDED_ALLOW_IPS=val)
+    p = subprocess.run([sys.executable, "-c", "import sys; sys.path.insert(0, '/verif'); from props import c08; c08._env_child()"],
+                       env=env, capture_output=True, text=True, cwd="/verif")
+    if "@@RESULT@@" not in p.stdout:
+        raise AssertionError("C08 env child failed: %s %s" % (p.stdout[-300:], p.stderr[-600:]))
+    res = json.loads(p.stdout.split("@@RESULT@@", 1)[1])
+    viols = []
+    for v in res["viols"][:4]:
+        v = dict(v)
+        v["fingerprint"] = "env-default:" + v["fingerprint"]
+        v["summary"] = "FORWARDED_ALLOW_IPS=%s in the environment: %s" % (val, v["summary"])
+        v["case"] = {"kind": "env", "t": [val]}
+        viols.append(v)
+    return {"evals": res["evals"], "nontriv": res["evals"], "viols": viols, "key": repr(("E", val))}
+
+
 def merges(a, b):
     """all interleavings of two event sequences preserving each one's order"""
     if not a:
@@ -336,6 +385,8 @@ def _task(t):
         return _interleave_task(t[1:])
     if t[0] == "PG":
         return _pg_task(t[1:])
+    if t[0] == "E":
+        return _env_task(t[1:])
     return _proxy_task(t[1:]) if t[0] == "P" else _gate_task(t[1:])
 
 
@@ -368,6 +419,8 @@ def run(ctx):
     for wi in (1, 2):
         for bline in ("tcp6", "none"):
             tasks.append(("I", wi, bline))
+    for val in ENV_VALUES:
+        tasks.append(("E", val))
     random.Random(ctx.seed).shuffle(tasks)
     res = par.pmap(_task, tasks, chunksize=2)
     res.sort(key=lambda r: r["key"])
@@ -382,6 +435,7 @@ def run(ctx):
                     {"peer": "v4-local", "proxy_protocol": True, "line": "tcp4", "requests": 3}],
         "exhaustive": True,
         "proxy_plus_gate_cells": sum(1 for t in tasks if t[0] == "PG"),
+        "environment_default_runs": ["FORWARDED_ALLOW_IPS=" + v for v in ENV_VALUES],
         "gate_cells": sum(1 for t in tasks if t[0] == "G"), "proxy_cells": sum(1 for t in tasks if t[0] == "P"),
         "interleaved_two_connection_schedules": sum(r["evals"] for r in res if r["key"].startswith("('I'")),
     }
@@ -394,6 +448,9 @@ def run(ctx):
 def replay(case):
     if case["kind"] == "interleave":
         r = _interleave_task(tuple(case["t"]))
+        return r["viols"][0] if r["viols"] else None
+    if case["kind"] == "env":
+        r = _env_task(tuple(case["t"]))
         return r["viols"][0] if r["viols"] else None
     if case["kind"] == "pg":
         r = _pg_task(tuple(case["t"]))
